@@ -544,7 +544,9 @@ def assemble(group, items, units, preamble, canary=False, drop_hints=()):
         # one module per unit: Verus verifies modules in parallel
         modk += 1
         a.add("} // verus!\npub mod vxm_%d { use super::*; verus! {" % modk)
-        splice_fn(a, it, uc, group_props, drop_hints=drop_hints)
+        # in the canary file the regular units are not proved again: they appear as contract-only (external_body) items,
+        # only the __canary duplicates carry bodies
+        splice_fn(a, dict(it, assume=True) if canary else it, uc, group_props, drop_hints=drop_hints)
         a.add("} } pub use vxm_%d::*;\nverus! {" % modk)
     if canary:
         a.add("// ---- vacuity canaries: each must FAIL")
